@@ -283,8 +283,12 @@ void end(){
 using namespace simk;
 
 // ================================================================ threads & sync wrappers
+// lock audit: which synchronisation objects the code under test takes (the harness asks where they live: a process-shared cache has to keep them in shared memory)
+static std::set<const void*> g_lock_audit; static bool g_lock_audit_on=false;
+namespace simk { void lock_audit(bool on){ g_lock_audit_on=on; if(on) g_lock_audit.clear(); } std::vector<const void*> audited_locks(){ return std::vector<const void*>(g_lock_audit.begin(),g_lock_audit.end()); } }
 static bool is_recursive(pthread_mutex_t*m){ return (m->__data.__kind & 3)==PTHREAD_MUTEX_RECURSIVE_NP; }
 extern "C" int __wrap_pthread_mutex_lock(pthread_mutex_t*m){ IGN;
+	if(g_lock_audit_on) g_lock_audit.insert(m);
 	if(!in_sim()) return __real_pthread_mutex_lock(m);
 	if(in_actor){ auto it=mtx.find(m); if(it!=mtx.end()&&it->second.owner!=-1) fatal("internal","actor step needs a mutex held by a parked thread\n"+dump_state()); return __real_pthread_mutex_lock(m); }
 	yield();
@@ -376,12 +380,14 @@ extern "C" void __wrap__ZNSt6thread4joinEv(std::thread*th){
 // rwlocks
 static bool holds_read(RW&s,int me){ for(int r:s.readers) if(r==me) return true; return false; }
 extern "C" int __wrap_pthread_rwlock_rdlock(pthread_rwlock_t*l){ IGN;
+	if(g_lock_audit_on) g_lock_audit.insert(l);
 	if(!in_sim()||in_actor) return __real_pthread_rwlock_rdlock(l);
 	yield();
 	if(rws[l].writer!=-1){ if(rws[l].writer==self_id()) fatal("deadlock","rdlock while holding wrlock\n"+dump_state()); S.rw_contended++; block([l]{return rws[l].writer==-1;},-1,"rdlock"); }
 	rws[l].readers.push_back(self_id()); return __real_pthread_rwlock_rdlock(l);
 }
 extern "C" int __wrap_pthread_rwlock_wrlock(pthread_rwlock_t*l){ IGN;
+	if(g_lock_audit_on) g_lock_audit.insert(l);
 	if(!in_sim()||in_actor) return __real_pthread_rwlock_wrlock(l);
 	yield();
 	RW &s=rws[l];
@@ -414,7 +420,7 @@ extern "C" int __wrap_nanosleep(const struct timespec*ts,struct timespec*rem){ I
 // ================================================================ descriptors
 namespace simk {
 struct Obj {
-	enum Kind { UNBOUND, LISTENER, STREAM, EPOLL, FILE_, URANDOM } kind = UNBOUND; bool pipe_end = false; std::string served;   /* URANDOM: what this descriptor was served */
+	enum Kind { UNBOUND, LISTENER, STREAM, EPOLL, FILE_, URANDOM, CONNECTING } kind = UNBOUND; int so_error = 0; bool conn_failed = false; std::string connect_to;   /* CONNECTING: a non-blocking connect() answered EINPROGRESS; an environment actor completes it (complete_connect) */ bool pipe_end = false; std::string served;   /* URANDOM: what this descriptor was served */
 	bool nonblock=false; int family=0; int socktype=SOCK_STREAM; std::string addr;
 	std::shared_ptr<bool> reset;
 	std::shared_ptr<Chan> rx,tx;
@@ -444,6 +450,14 @@ void set_link_cut(int node,const std::string &addr,bool cut){
 	for(auto&o:fdtab) if(o&&o->kind==Obj::STREAM&&!o->accepted&&o->conn_node==node&&o->addr==addr&&o->reset&&!*o->reset) *o->reset=true; }
 int unconsumed_resets(){ int n=0; for(auto&o:fdtab) if(o&&o->kind==Obj::STREAM&&!o->accepted&&o->reset&&*o->reset) n++; return n; }   // connecting-side sockets that were reset and not yet closed by their owner
 bool reset_accepted_stream(uint64_t pick){ std::vector<Obj*> v; for(auto&o:fdtab) if(o&&o->accepted&&o->kind==Obj::STREAM&&!*o->reset) v.push_back(o.get()); if(v.empty()) return false; Obj*o=v[pick%v.size()]; *o->reset=true; trace_mix(0xEE5E7); tracef("fault: connection reset injected"); return true; }
+int connecting_count(){ int n=0; for(auto&o:fdtab) if(o&&o->kind==Obj::CONNECTING) n++; return n; }
+static void make_pair(std::shared_ptr<Obj>&a,std::shared_ptr<Obj>&b,size_t cap_ab,size_t cap_ba);
+// completes one pending non-blocking connect (picked by the caller's number): the connection is established if somebody listens at the address now, refused otherwise
+bool complete_connect(uint64_t pick){ std::vector<std::shared_ptr<Obj>> v; for(auto&o:fdtab) if(o&&o->kind==Obj::CONNECTING) v.push_back(o); if(v.empty()) return false; auto o=v[pick%v.size()];
+	auto it=listeners.find(o->connect_to); trace_mix(0xC0223);
+	if(it==listeners.end() || cut_links.count({o->conn_node,o->connect_to})){ o->kind=Obj::UNBOUND; o->conn_failed=true; o->so_error=ECONNREFUSED; tracef("connect to %s completed: refused",o->connect_to.c_str()); return true; }
+	auto l=get(it->second); auto srv=std::make_shared<Obj>(); bool nb=o->nonblock; int fam=o->family; std::string a=o->connect_to;
+	make_pair(o,srv,P.default_chan_cap,P.default_chan_cap); o->nonblock=nb; o->family=fam; srv->family=l->family; srv->addr=l->addr; o->addr=a; l->backlog.push_back(srv); S.connects++; tracef("connect to %s completed: established",a.c_str()); return true; }
 int open_accepted_fds(){ int n=0; for(auto&o:fdtab) if(o&&o->accepted) n++; return n; }
 std::string describe_fds(){
 	std::string r; char b[256];
@@ -461,12 +475,12 @@ static std::string addr_str(const struct sockaddr*sa){
 	if(sa->sa_family==AF_UNIX){ return std::string("unix:")+((const sockaddr_un*)sa)->sun_path; }
 	return "?";
 }
-static bool readable(Obj&o){ switch(o.kind){ case Obj::STREAM: return !o.rx->empty()||o.rx->wr_closed||*o.reset; case Obj::LISTENER: return !o.backlog.empty(); case Obj::FILE_: case Obj::URANDOM: return true; default: return false; } }
-static bool writable(Obj&o){ switch(o.kind){ case Obj::STREAM: return o.tx->room()>0||o.tx->rd_closed||*o.reset; case Obj::FILE_: return true; default: return false; } }
+static bool readable(Obj&o){ if(o.conn_failed) return true; switch(o.kind){ case Obj::STREAM: return !o.rx->empty()||o.rx->wr_closed||*o.reset; case Obj::LISTENER: return !o.backlog.empty(); case Obj::FILE_: case Obj::URANDOM: return true; default: return false; } }
+static bool writable(Obj&o){ if(o.conn_failed) return true; switch(o.kind){ case Obj::STREAM: return o.tx->room()>0||o.tx->rd_closed||*o.reset; case Obj::FILE_: return true; default: return false; } }
 // hang-up as Linux reports it: a local (AF_UNIX) stream or pipe hangs up when the peer has closed; a TCP socket only when BOTH directions are shut - the peer's FIN alone
 // gives "readable" (data, then end of file), POLLHUP comes once this side has shut down its sending side too - or after a reset
-static bool hup(Obj&o){ if(o.kind!=Obj::STREAM) return false; if(*o.reset) return true; if(o.family==AF_UNIX) return o.rx->wr_closed && o.tx->rd_closed; return o.rx->wr_closed && o.tx->wr_closed; }
-static bool err(Obj&o){ return o.kind==Obj::STREAM && *o.reset; }
+static bool hup(Obj&o){ if(o.conn_failed) return true; if(o.kind!=Obj::STREAM) return false; if(*o.reset) return true; if(o.family==AF_UNIX) return o.rx->wr_closed && o.tx->rd_closed; return o.rx->wr_closed && o.tx->wr_closed; }
+static bool err(Obj&o){ return o.conn_failed || (o.kind==Obj::STREAM && *o.reset); }
 
 static void make_pair(std::shared_ptr<Obj>&a,std::shared_ptr<Obj>&b,size_t cap_ab,size_t cap_ba){
 	auto x=std::make_shared<Chan>(),y=std::make_shared<Chan>(); x->cap=cap_ab; y->cap=cap_ba;
@@ -506,15 +520,18 @@ static void fill_addr(Obj&o,struct sockaddr*sa,socklen_t*len,bool peer){
 extern "C" int __wrap_accept(int fd,struct sockaddr*sa,socklen_t*len){ IGN; SIMFD(o,fd); if(!o) return __real_accept(fd,sa,len);
 	yield(); if(o->kind!=Obj::LISTENER){errno=EINVAL;return -1;}
 	if(P.p_eintr && frng.chance(P.p_eintr)){ S.eintr++; errno=EINTR; return -1; }
+	if(o->nonblock && !o->backlog.empty() && P.p_spurious && frng.chance(P.p_spurious)){ S.spurious++; S.accept_spurious++; trace_mix(0xE6); errno=EAGAIN; tracef("accept %d spurious EAGAIN (as if another acceptor on this listening socket had taken the connection)",fd); return -1; }
 	if(o->backlog.empty()){ if(o->nonblock){errno=EAGAIN;return -1;} block([o]{return !o->backlog.empty();},-1,"accept"); }
 	{ uint64_t i=S.accepts+S.accept_emfile; for(uint32_t x:P.accept_fail_at) if(x==i){ S.accept_emfile++; trace_mix(0xACCE97+i); tracef("accept %d: EMFILE (injected)",fd); errno=EMFILE; return -1; } }
 	auto s=o->backlog.front(); o->backlog.pop_front(); fill_addr(*s,sa,len,true); S.accepts++; s->accepted=true;
 	int n=newfd(s); tracef("accept %d -> %d",fd,n); return n; }
 extern "C" int __wrap_connect(int fd,const struct sockaddr*sa,socklen_t len){ IGN; SIMFD(o,fd); if(!o) return __real_connect(fd,sa,len);
 	yield(); std::string a=addr_str(sa); auto it=listeners.find(a);
+	if(it==listeners.end() && o->nonblock && P.p_connect_inprogress && frng.chance(P.p_connect_inprogress)){ o->kind=Obj::CONNECTING; o->connect_to=a; o->conn_node=self?self->node:0; S.connect_inprogress++; trace_mix(0xC0222); tracef("connect fd=%d %s EINPROGRESS (nobody listens)",fd,a.c_str()); errno=EINPROGRESS; return -1; }
 	if(it==listeners.end()){ tracef("connect %s refused",a.c_str()); errno=ECONNREFUSED; return -1; }
 	if(cut_links.count({self?self->node:0,a})){ tracef("connect %s: link is cut",a.c_str()); S.partition_refused++; errno=ECONNREFUSED; return -1; }
 	o->conn_node=self?self->node:0;
+	if(o->nonblock && P.p_connect_inprogress && frng.chance(P.p_connect_inprogress)){ o->kind=Obj::CONNECTING; o->connect_to=a; S.connect_inprogress++; trace_mix(0xC0221); tracef("connect fd=%d %s EINPROGRESS",fd,a.c_str()); errno=EINPROGRESS; return -1; }
 	auto l=get(it->second); auto srv=std::make_shared<Obj>();
 	size_t c1=P.default_chan_cap,c2=P.default_chan_cap;
 	bool nb=o->nonblock; int fam=o->family;
@@ -603,7 +620,7 @@ extern "C" int __wrap_setsockopt(int fd,int lvl,int name,const void*val,socklen_
 	if(lvl==SOL_SOCKET&&(name==SO_SNDTIMEO||name==SO_RCVTIMEO)){ auto*tv=(const struct timeval*)val; int64_t v=tv->tv_sec*1000000LL+tv->tv_usec; if(name==SO_SNDTIMEO) o->sndtimeo_us=v; else o->rcvtimeo_us=v; }
 	return 0; }
 extern "C" int __wrap_getsockopt(int fd,int lvl,int name,void*val,socklen_t*len){ IGN; SIMFD(o,fd); if(!o) return __real_getsockopt(fd,lvl,name,val,len);
-	if(val&&len&&*len>=sizeof(int)){ *(int*)val=0; *len=sizeof(int); } return 0; }
+	if(val&&len&&*len>=sizeof(int)){ int v=0; if(lvl==SOL_SOCKET&&name==SO_ERROR){ v=o->so_error; o->so_error=0; } *(int*)val=v; *len=sizeof(int); } return 0; }
 extern "C" int __wrap_getpeername(int fd,struct sockaddr*sa,socklen_t*len){ IGN; SIMFD(o,fd); if(!o) return __real_getpeername(fd,sa,len);
 	if(o->kind!=Obj::STREAM){ errno=ENOTCONN; return -1; } yield(); o=get(fd); if(!o){ errno=EBADF; return -1; }
 	if(o->reset && *o->reset){ S.getpeername_enotconn++; tracef("getpeername %d ENOTCONN (connection was reset)",fd); errno=ENOTCONN; return -1; }   // Linux: a TCP socket that received RST is in state CLOSE, inet_getname() answers ENOTCONN
